@@ -55,7 +55,7 @@ def announce_watchdog(
     async def callback(name: str) -> None:
         for neighbor_name in reactor.configuration.neighbors.keys():
             neighbor = reactor.configuration.neighbors.get(neighbor_name, None)
-            if not neighbor:
+            if not neighbor or neighbor_name not in peers:
                 continue
             neighbor.rib.outgoing.announce_watchdog(name)
             await asyncio.sleep(0)  # Yield control after each neighbor (matches original yield False)
@@ -73,7 +73,7 @@ def withdraw_watchdog(
     async def callback(name: str) -> None:
         for neighbor_name in reactor.configuration.neighbors.keys():
             neighbor = reactor.configuration.neighbors.get(neighbor_name, None)
-            if not neighbor:
+            if not neighbor or neighbor_name not in peers:
                 continue
             neighbor.rib.outgoing.withdraw_watchdog(name)
             await asyncio.sleep(0)  # Yield control after each neighbor (matches original yield False)
